@@ -19,9 +19,11 @@ pub enum ElemTy {
     OptU8,
     /// key/payload record ordered by key only (Ord-equality coarser than identity)
     Keyed,
+    /// Option<N64>: None is encoded as the canonical NaN bit pattern
+    OptN64,
 }
 
-pub const ALL_ELEMS: [ElemTy; 11] = [
+pub const ALL_ELEMS: [ElemTy; 12] = [
     ElemTy::I8,
     ElemTy::I32,
     ElemTy::I64,
@@ -33,6 +35,7 @@ pub const ALL_ELEMS: [ElemTy; 11] = [
     ElemTy::OptI32,
     ElemTy::OptU8,
     ElemTy::Keyed,
+    ElemTy::OptN64,
 ];
 
 impl ElemTy {
@@ -49,16 +52,17 @@ impl ElemTy {
             ElemTy::OptI32 => "Option<i32>",
             ElemTy::OptU8 => "Option<u8>",
             ElemTy::Keyed => "Keyed",
+            ElemTy::OptN64 => "Option<N64>",
         }
     }
     pub fn from_name(s: &str) -> Option<ElemTy> {
         ALL_ELEMS.iter().copied().find(|e| e.name() == s)
     }
     pub fn is_maybe_nan(self) -> bool {
-        matches!(self, ElemTy::F64 | ElemTy::F32 | ElemTy::OptI32 | ElemTy::OptU8)
+        matches!(self, ElemTy::F64 | ElemTy::F32 | ElemTy::OptI32 | ElemTy::OptU8 | ElemTy::OptN64)
     }
     pub fn is_float(self) -> bool {
-        matches!(self, ElemTy::N64 | ElemTy::F64 | ElemTy::F32)
+        matches!(self, ElemTy::N64 | ElemTy::F64 | ElemTy::F32 | ElemTy::OptN64)
     }
     /// inclusive integer value range of the (non-missing) values
     pub fn int_range(self) -> (i128, i128) {
@@ -90,12 +94,13 @@ impl ElemTy {
                 payloads[(variant % 4) as usize] as i64
             }
             ElemTy::OptI32 | ElemTy::OptU8 => i64::MIN,
+            ElemTy::OptN64 => f64::NAN.to_bits() as i64,
             _ => panic!("no missing value for {}", self.name()),
         }
     }
     pub fn is_missing_raw(self, raw: i64) -> bool {
         match self {
-            ElemTy::F64 => f64::from_bits(raw as u64).is_nan(),
+            ElemTy::F64 | ElemTy::OptN64 => f64::from_bits(raw as u64).is_nan(),
             ElemTy::F32 => f32::from_bits(raw as u32).is_nan(),
             ElemTy::OptI32 | ElemTy::OptU8 => raw == i64::MIN,
             _ => false,
@@ -104,7 +109,7 @@ impl ElemTy {
     /// raw encoding of the integer value v (must be inside int_range; floats: exactly representable)
     pub fn raw_of_int(self, v: i128) -> i64 {
         match self {
-            ElemTy::N64 | ElemTy::F64 => (v as f64).to_bits() as i64,
+            ElemTy::N64 | ElemTy::F64 | ElemTy::OptN64 => (v as f64).to_bits() as i64,
             ElemTy::F32 => (v as f32).to_bits() as i64,
             ElemTy::U64 => (v as u64) as i64,
             ElemTy::Keyed => (v as i64) << 32,
@@ -113,7 +118,7 @@ impl ElemTy {
     }
     pub fn raw_of_f64(self, x: f64) -> i64 {
         match self {
-            ElemTy::N64 | ElemTy::F64 => x.to_bits() as i64,
+            ElemTy::N64 | ElemTy::F64 | ElemTy::OptN64 => x.to_bits() as i64,
             ElemTy::F32 => (x as f32).to_bits() as i64,
             _ => panic!("raw_of_f64 on integer type"),
         }
@@ -121,6 +126,14 @@ impl ElemTy {
     pub fn pretty(self, raw: i64) -> String {
         match self {
             ElemTy::N64 | ElemTy::F64 => format!("{:?}", f64::from_bits(raw as u64)),
+            ElemTy::OptN64 => {
+                let x = f64::from_bits(raw as u64);
+                if x.is_nan() {
+                    "None".into()
+                } else {
+                    format!("Some({:?})", x)
+                }
+            }
             ElemTy::F32 => format!("{:?}", f32::from_bits(raw as u32)),
             ElemTy::U64 => format!("{}", raw as u64),
             ElemTy::Keyed => format!("key {} tag {}", raw >> 32, raw & 0xffff_ffff),
@@ -177,8 +190,13 @@ pub struct Op {
     pub idx: Vec<u64>,
     pub qs: Vec<f64>,
     pub strat: Strat,
-    /// how list arguments are passed: 0 owned array, 1 view, 2 stepped view
+    /// how list arguments are passed: 0 owned array, 1 view, 2 stepped view,
+    /// 3 reversed view, 4 reversed stepped view
     pub form: u8,
+    /// what the 1-D receiver of select / select_many / partition is: 0 the lane
+    /// view into the world, 1 an owned copy, 2 an ArcArray sharing its buffer
+    /// with a second handle, 3 a CowArray borrowing another array
+    pub storage: u8,
     /// operation applied through the stripped view (remove_nan / map_axis_skipnan_mut)
     pub inner: String,
     /// auxiliary integer data (edges for bins/grid operations, weights, transforms ...)
@@ -198,6 +216,7 @@ impl Op {
             qs: vec![],
             strat: Strat::Lower,
             form: 0,
+            storage: 0,
             inner: String::new(),
             aux: vec![],
             policy,
@@ -221,6 +240,9 @@ impl Op {
         }
         m.insert("strategy".into(), json!(self.strat.name()));
         m.insert("form".into(), json!(self.form));
+        if self.storage != 0 {
+            m.insert("storage".into(), json!(self.storage));
+        }
         if !self.inner.is_empty() {
             m.insert("inner".into(), json!(self.inner));
         }
@@ -263,6 +285,7 @@ impl Op {
             qs,
             strat: v["strategy"].as_str().and_then(Strat::from_name).unwrap_or(Strat::Lower),
             form: v["form"].as_u64().unwrap_or(0) as u8,
+            storage: v.get("storage").and_then(|x| x.as_u64()).unwrap_or(0) as u8,
             inner: v.get("inner").and_then(|s| s.as_str()).unwrap_or("").to_string(),
             aux,
             policy: Policy::from_json(&v["policy"])?,
